@@ -17,6 +17,7 @@ import Rare.Proofs.C05HB
 import Rare.Proofs.C05HBTable
 import Rare.Proofs.C05HBChan
 import Rare.Proofs.C05HBChanDemo
+import Rare.Proofs.C05Spawner
 /-!
 # C05 — race-free, atomic renders, complete final render
 
@@ -461,6 +462,64 @@ example : ∃ s, C05Prog.Reach (C05Prog.init ([some [5, 7], none].map (C05Prog.p
   have h4 := C05Prog.Reach.step h3 (.close _ rfl (by decide))
   have hc := close_program_complete _ (.inl rfl) [some [5, 7], none] h4 rfl
   exact ⟨_, h4, rfl, hc.2.1, hc.2.2.1, hc.2.2.2.1⟩
+
+/-! ### `[read/total]`: the spawner side of the status line (Model/C05Spawner.lean, Proofs/C05Spawner.lean)
+
+The goroutine of `OpenFilesToChan` that starts the readers: names reach `bufferedFilenames` (`push`), the range loop
+receives one (`recv`), `out.setSourceCount(readCount + len(bufferedFilenames))` (`measure`: the length is whatever it
+is at that moment), `go` (`spawn`); readers run `stopFileReading` (`finish`); `wg.Wait(); out.close()` (`close`).
+All interleavings, any number `n` of names. -/
+
+/-- **The prefix `[read/total]` never shows more files read than there are**: in every reachable state
+    `readCount ≤ readers that stopped ≤ readers started ≤ sourceCount ≤ names that reached the buffer ≤ n`. -/
+theorem status_read_le_total {n : Nat} {s : C05Spawner.St} (h : C05Spawner.Reach n s) :
+    s.read ≤ s.stopped ∧ s.stopped ≤ s.spawned ∧ s.spawned ≤ s.total ∧ s.total ≤ s.pushed ∧ s.pushed ≤ n := by
+  have hi := C05Spawner.inv_reach h
+  exact ⟨hi.rs, hi.ss, C05Spawner.spawned_le_total h, hi.totp, hi.pn⟩
+
+/-- **Neither number of the prefix ever goes down**: every step keeps or raises `sourceCount` (the measured
+    `readCount + len(bufferedFilenames)` is the number of names that reached the buffer so far) and `readCount`. -/
+theorem status_total_monotone {n : Nat} {s s' : C05Spawner.St} (h : C05Spawner.Reach n s)
+    (hs : C05Spawner.Step n s s') : s.total ≤ s'.total ∧ s.read ≤ s'.read := by
+  refine ⟨C05Spawner.total_mono h hs, ?_⟩
+  cases hs <;> simp
+
+/-- **At the close the prefix is complete**: once the batch channel is closed, `sourceCount` = the number of names,
+    every reader was started and has run `stopFileReading` (the prefix reads `[opened files/n]`). -/
+theorem status_total_complete {n : Nat} {s : C05Spawner.St} (h : C05Spawner.Reach n s) (hc : s.closed = true) :
+    s.total = n ∧ s.spawned = n ∧ s.stopped = n ∧ s.read ≤ n := by
+  obtain ⟨h1, h2, h3, h4⟩ := C05Spawner.closed_only_by_close h hc
+  have hi := C05Spawner.inv_reach h
+  have := hi.top h1
+  have := hi.totp; have := hi.rs
+  omega
+
+/-- The loop body in the regenerated skeleton: semaphore, `wg.Add`, `setSourceCount`, then the `go` statement – the
+    count is published BEFORE the reader it counts can stop (hence `spawned ≤ total`); one `setSourceCount` call. -/
+theorem status_spawner_skeleton :
+    ["range:bufferedFilenames{", "send:sema", "call:wg.Add", "call:out.setSourceCount", "go{"] <:+:
+      Gen.Skeleton.openFilesToChan ∧
+    Gen.Skeleton.openFilesToChan.count "call:out.setSourceCount" = 1 ∧
+    ["call:wg.Wait", "call:out.close", "}", "return"] <:+ Gen.Skeleton.openFilesToChan := by
+  refine ⟨by decide, by decide, by decide⟩
+
+/-- Boundary: publishing the count AFTER the `go` statement would break `read ≤ total` – the hypothesis `Reach` (whose
+    `spawn` needs `pc = measured`) matters: the state "one reader started and stopped, nothing measured yet" violates the
+    bound and is not reachable. -/
+example : ¬ C05Spawner.Reach 1 { pushed := 1, taken := 1, spawned := 1, stopped := 1, read := 1, pc := .received } := by
+  intro h
+  have := (status_read_le_total h).2.2.1
+  simp at this
+
+/-- Non-vacuity: a run over two names (one opened, one missing), the second name arriving after the first measurement:
+    the total goes 0 → 1 → 2, the run closes with `[1/2]`. -/
+example : ∃ s : C05Spawner.St, C05Spawner.Reach 2 s ∧ s.closed = true ∧ s.total = 2 ∧ s.read = 1 := by
+  have h := C05Spawner.Reach.step (.step (.step (.step (.step (.step (.step (.step (.step (.step (.step
+    (C05Spawner.Reach.init (n := 2))
+    (.push _ (by decide))) (.recv _ rfl (by decide))) (.measure _ rfl)) (.spawn _ rfl))
+    (.push _ (by decide))) (.finish _ true (by decide))) (.recv _ rfl (by decide))) (.measure _ rfl)) (.spawn _ rfl))
+    (.finish _ false (by decide))) (.close _ rfl rfl rfl rfl rfl)
+  exact ⟨_, h, rfl, rfl, rfl⟩
 
 /-- The aggregation-loop skeleton regenerated from /repo is the one the transition system models. -/
 theorem skeleton_matches_source :
